@@ -1050,7 +1050,13 @@ impl<'a> G<'a> {
                 9 => (format!("db [{}, {}]", self.imm8(), 17 + self.r.below(40)), false),
                 0 => (format!("db {}", self.imm8()), false),
                 1 => (format!("dw {}", self.imm16()), true),
-                2 => (format!("db [{}]", self.r.below(40)), false),
+                2 => {
+                    if self.r.chance(50) {
+                        (format!("db [{}]", self.r.below(40)), false)
+                    } else {
+                        (format!("dw [{}]", self.r.below(20)), true)
+                    }
+                }
                 3 => (format!("dw [{}, {}]", self.imm16(), self.r.below(20)), true),
                 4 => (format!("db \"{}\"", self.r.pick(&["Hello World", "a", "", "x y z!", "0123456789abcdef"])), false),
                 5 => (format!("dw \"{}\"", self.r.pick(&["hi", "wide"])), true),
